@@ -36,13 +36,61 @@ func sameNumber(a, b float64) bool {
 func oracle(c *Case) (string, int) {
 	inp := unhexList(c.Inp)
 	name := progName[c.P]
-	fo, fk := RunProg(c.P, c.D, inp, false, nil, 0, 0)
-	outs, gk := RunProg(c.P, c.D, inp, true, c.Act, c.K, c.O)
+	if c.W == 32 {
+		name += "(32 bit)"
+	}
+	// the fast-path run decides the outcome class and the values; finite differences always go through the
+	// Float64 routine (the real function is the same for the 32 bit types)
+	fo, fk := RunProgRec(c.P, c.D, inp, c.etFast(), nil, 0, 0, 0, 0, c.Fam, 0)
+	outs, gk := RunProgRec(c.P, c.D, inp, c.etGen(), c.Act, c.K, c.O, c.Rec, c.Rseed, c.Fam, c.KO)
+	if c.Rec != 0 {
+		// recycled InSitu buffers / in place: the result must be the one of a fresh call, bit for bit,
+		// on the fast path (values) and on the generic path (values, gradient, Hessian)
+		mode := recName[c.Rec]
+		ro, rk := RunProgRec(c.P, c.D, inp, c.etFast(), nil, 0, 0, c.Rec, c.Rseed, c.Fam, 0)
+		if outcomeClass(rk) != outcomeClass(fk) {
+			return fmt.Sprintf("%s on %s with recycled InSitu buffers (%s): %s, a fresh call: %s", name, etName[c.etFast()], mode, rk, fk), -1
+		}
+		if fk == "ok" {
+			fv, rv := values(fo), values(ro)
+			for r := range fv {
+				if r >= len(rv) || !sameNumber(fv[r], rv[r]) {
+					return fmt.Sprintf("%s on %s with recycled InSitu buffers (%s): output %d is %v, a fresh call returns %v", name, etName[c.etFast()], mode, r, rv[r], fv[r]), -1
+				}
+			}
+		}
+		go2, gk2 := RunProgRec(c.P, c.D, inp, c.etGen(), c.Act, c.K, c.O, 0, 0, c.Fam, 0)
+		if outcomeClass(gk2) != outcomeClass(gk) {
+			return fmt.Sprintf("%s on %s (k=%d, order %d) with recycled InSitu buffers (%s): %s, a fresh call: %s", name, etName[c.etGen()], c.K, c.O, mode, gk, gk2), -1
+		}
+		if gk == "ok" {
+			s1, k1 := slots(outs, c.K, c.O)
+			s2, k2 := slots(go2, c.K, c.O)
+			if k1 != k2 {
+				return fmt.Sprintf("%s on %s with recycled InSitu buffers (%s): reading the slots: %s, after a fresh call: %s", name, etName[c.etGen()], mode, k1, k2), -1
+			}
+			for r := range s2 {
+				if r >= len(s1) || !sameNumber(s1[r].V, s2[r].V) {
+					return fmt.Sprintf("%s on %s with recycled InSitu buffers (%s): output %d value %v, a fresh call returns %v", name, etName[c.etGen()], mode, r, s1[r].V, s2[r].V), -1
+				}
+				for i := range s2[r].G {
+					if !sameNumber(s1[r].G[i], s2[r].G[i]) {
+						return fmt.Sprintf("%s on %s with recycled InSitu buffers (%s): output %d derivative %d is %v, a fresh call returns %v", name, etName[c.etGen()], mode, r, i, s1[r].G[i], s2[r].G[i]), i
+					}
+					for j := range s2[r].H {
+						if !sameNumber(s1[r].H[i][j], s2[r].H[i][j]) {
+							return fmt.Sprintf("%s on %s with recycled InSitu buffers (%s): output %d Hessian (%d,%d) is %v, a fresh call returns %v", name, etName[c.etGen()], mode, r, i, j, s1[r].H[i][j], s2[r].H[i][j]), i
+						}
+					}
+				}
+			}
+		}
+	}
 	if outcomeClass(fk) != outcomeClass(gk) {
 		if c.P == PLogDetPD {
 			return "", -1
 		}
-		return fmt.Sprintf("%s: Float64 run: %s, Real64 run (k=%d, order %d): %s", name, fk, c.K, c.O, gk), -1
+		return fmt.Sprintf("%s: %s run: %s, %s run (k=%d, order %d): %s", name, etName[c.etFast()], fk, etName[c.etGen()], c.K, c.O, gk), -1
 	}
 	if fk != "ok" {
 		return "", -1
@@ -53,15 +101,33 @@ func oracle(c *Case) (string, int) {
 	}
 	fv := values(fo)
 	if len(fv) != len(sl) {
-		return fmt.Sprintf("%s: %d outputs on Float64, %d on Real64", name, len(fv), len(sl)), -1
+		return fmt.Sprintf("%s: %d outputs on %s, %d on %s", name, len(fv), etName[c.etFast()], len(sl), etName[c.etGen()]), -1
 	}
 	for r := range sl {
 		if !sameNumber(fv[r], sl[r].V) {
-			return fmt.Sprintf("%s: output %d: value on Float64 input %v, on Real64 input %v", name, r, fv[r], sl[r].V), -1
+			return fmt.Sprintf("%s: output %d: value on %s input %v, on %s input %v", name, r, etName[c.etFast()], fv[r], etName[c.etGen()], sl[r].V), -1
 		}
 	}
 	if !allFinite(fv) {
 		return "", -1
+	}
+	// tolerance of the finite-difference comparison: binary32 slots carry ~2^-24 relative rounding per operation
+	ftol := 2e-5
+	if c.W == 32 {
+		ftol = 2e-2
+		f64, k64 := RunProg(c.P, c.D, inp, false, nil, 0, 0)
+		if k64 != "ok" {
+			return "", -1
+		}
+		fv = values(f64)
+		if !allFinite(fv) {
+			return "", -1
+		}
+		for r := range sl {
+			if math.Abs(fv[r]-sl[r].V) > ftol*(1+math.Abs(fv[r])) {
+				return "", -1 // ill-conditioned for binary32: nothing to conclude from finite differences
+			}
+		}
 	}
 	// position of variable v in the input
 	pos := make([]int, c.K)
@@ -111,14 +177,14 @@ func oracle(c *Case) (string, int) {
 		for r := range sl {
 			fd := (vp[r] - vm[r]) / hh
 			g := sl[r].G[v]
-			tol := 2e-5 * (1 + math.Abs(g) + math.Abs(fv[r]) + math.Abs(fd))
+			tol := ftol * (1 + math.Abs(g) + math.Abs(fv[r]) + math.Abs(fd))
 			if math.IsNaN(g) || math.Abs(fd-g) > tol {
 				return fmt.Sprintf("%s: output %d, variable %d (input entry %d): carried derivative %v, finite difference of the Float64 routine %v",
 					name, r, v, pos[v], g, fd), v
 			}
 		}
 		if c.O >= 2 {
-			op, kp := RunProg(c.P, c.D, xp, true, c.Act, c.K, 1)
+			op, kp := RunProg(c.P, c.D, xp, true, c.Act, c.K, 1) // Real64: the gradient of the same real function
 			om, km := RunProg(c.P, c.D, xm, true, c.Act, c.K, 1)
 			if kp != "ok" || km != "ok" {
 				continue
@@ -132,7 +198,7 @@ func oracle(c *Case) (string, int) {
 				for u := 0; u < c.K; u++ {
 					fd := (sp[r].G[u] - sm[r].G[u]) / hh
 					hv := sl[r].H[u][v]
-					tol := 2e-5 * (1 + math.Abs(hv) + math.Abs(sl[r].G[u]) + math.Abs(fd))
+					tol := ftol * (1 + math.Abs(hv) + math.Abs(sl[r].G[u]) + math.Abs(fd))
 					if math.IsNaN(hv) || math.Abs(fd-hv) > tol {
 						return fmt.Sprintf("%s: output %d, variables (%d,%d): carried second derivative %v, finite difference of the carried gradient %v",
 							name, r, u, v, hv, fd), v
@@ -283,10 +349,21 @@ func runHunt(o Opts) {
 			}
 			return
 		}
-		if c.Kind != "D" && c.Kind != "V" && c.Kind != "F" {
+		if c.Kind != "D" && c.Kind != "V" && c.Kind != "F" && c.Kind != "RD" {
 			return
 		}
 		cc := *c
+		if cc.Kind == "RD" { // recycled buffers in a direction that is decided by the oracle alone (known findings)
+			tried++
+			if f, _ := oracle(&cc); f != "" {
+				key := fmt.Sprintf("RD|%d|%d|%s", cc.P, cc.KO, f[:minInt(len(f), 40)])
+				if !seen[key] {
+					seen[key] = true
+					all = append(all, huntEntry{Failure: f, Case: c})
+				}
+			}
+			return
+		}
 		if cc.Kind == "V" { // value case: activate everything at order 1
 			cc.Kind = "D"
 			cc.Act = make([]int, len(cc.Inp))
@@ -351,7 +428,17 @@ func runHunt(o Opts) {
 					pat = "subset"
 				}
 				act, k := genAct(rng, len(inp), pat, maxk)
-				try(&Case{Kind: "D", P: p, D: d, Inp: hexList(inp), Act: act, K: k, O: ord, Fam: fam, Tag: pat})
+				cse := &Case{Kind: "D", P: p, D: d, Inp: hexList(inp), Act: act, K: k, O: ord, Fam: fam, Tag: pat}
+				// half of the search runs with recycled buffers / in place, a fifth on the 32 bit types
+				if recyclable(p) && t%2 == 1 {
+					cse.Rec = 1 + rng.Intn(3)
+					cse.Rseed = rng.U64() % 1000000
+				}
+				if t%5 == 4 && p != PLogDetPD {
+					cse.W = 32
+					cse.Inp = hexList(round32(inp))
+				}
+				try(cse)
 			}
 		}
 	}
